@@ -155,6 +155,79 @@ func (h *bitHarness) leafVarint(c *bitexec.Ctx) {
 	}
 }
 
+// leafDecodeSpec: the reader against the wire format itself (not against the writer): any well-formed varint of
+// k bytes, minimal or not, decodes to the concatenation of its 7-bit groups, little end first.
+func (h *bitHarness) leafDecodeSpec(k int) func(c *bitexec.Ctx) {
+	return func(c *bitexec.Ctx) {
+		buf := &bitexec.Buffer{}
+		want := bitdom.ConstVal(64, false, 0)
+		for i := 0; i < k; i++ {
+			fixed := map[int]bool{7: i < k-1}
+			if i == 9 {
+				for b := 1; b < 7; b++ {
+					fixed[b] = false // bits beyond 2^64 are an overflow; not part of this harness
+				}
+			}
+			by := c.Input(fmt.Sprintf("b%d", i), 8, false, fixed)
+			buf.B = append(buf.B, by.V)
+			for b := 0; b < 7; b++ {
+				if 7*i+b < 64 {
+					want.Bits[7*i+b] = by.V.Bits[b]
+				}
+			}
+		}
+		for _, p := range withPadding(buf, k) {
+			r := h.call("DecodeVarint", nil, p)
+			c.Check("DecodeVarint accepts a well-formed varint", errNil(r[2]), "error "+errDesc(r[2]))
+			n2, ok := constOf(r[1])
+			c.Check("DecodeVarint consumes the whole varint", ok && int(n2) == k, fmt.Sprintf("%d bytes, consumed %v", k, r[1]))
+			got, okv := r[0].(bitexec.Int)
+			c.Check("DecodeVarint returns the concatenated 7-bit groups", okv && got.V.Equal(want), fmt.Sprintf("decoded %v", r[0]))
+		}
+	}
+}
+
+// decodeBoolSpec: a bool field may carry any well-formed varint; zero is false, everything else true.
+func (h *bitHarness) decodeBoolSpec(k int) func(c *bitexec.Ctx) {
+	return func(c *bitexec.Ctx) {
+		buf := &bitexec.Buffer{}
+		want := bitdom.ConstVal(64, false, 0)
+		for i := 0; i < k; i++ {
+			fixed := map[int]bool{7: i < k-1}
+			if i == 9 {
+				for b := 1; b < 7; b++ {
+					fixed[b] = false
+				}
+			}
+			by := c.Input(fmt.Sprintf("b%d", i), 8, false, fixed)
+			buf.B = append(buf.B, by.V)
+			for b := 0; b < 7; b++ {
+				if 7*i+b < 64 {
+					want.Bits[7*i+b] = by.V.Bits[b]
+				}
+			}
+		}
+		res, decided, split := bitdom.Cmp(want, bitdom.ConstVal(64, false, 0))
+		if !decided {
+			panic(bitexec.SplitReq{Form: split})
+		}
+		exp := res != 0
+		for _, p := range withPadding(buf, k) {
+			dec := h.newDecoder(p, h.modeSafe)
+			r := h.call("(*Decoder).DecodeBool", bitexec.Ptr{Obj: dec})
+			c.Check("DecodeBool accepts any well-formed varint", errNil(r[1]), "error "+errDesc(r[1]))
+			if !errNil(r[1]) {
+				continue
+			}
+			b, ok := r[0].(bitexec.Bool)
+			cb, known := b.B.IsConst()
+			c.Check("DecodeBool is true exactly for non-zero varints", ok && known && cb == exp, fmt.Sprintf("got %v, want %v", r[0], exp))
+			off, oko := constOf(dec.Fields["offset"])
+			c.Check("DecodeBool consumes the whole varint", oko && int(off) == k, fmt.Sprint(dec.Fields["offset"]))
+		}
+	}
+}
+
 func (h *bitHarness) leafZigZag(width int) func(c *bitexec.Ctx) {
 	return func(c *bitexec.Ctx) {
 		v := c.Input("v", width, true, nil)
@@ -299,6 +372,17 @@ func (h *bitHarness) scalar(k bitKind, tagTop int, tagConst uint64, valueConst *
 			vsz, ok2 = constOf(h.call("SizeOfZigZag", nil, bitexec.Int{V: raw.V.Convert(64, false)})[0])
 		}
 		c.Check("bytes written = SizeOfTagKey + size of the value", ok1 && ok2 && ksz+vsz == n, fmt.Sprintf("wrote %d, helpers say %d+%d", n, ksz, vsz))
+		if k.boolean && n >= 1 {
+			// canonical form: a bool is the single byte 0 or 1
+			by := buf.B[n-1]
+			canon := by.Bits[0].Equal(raw.V.Bits[0])
+			for b := 1; b < 8; b++ {
+				if cb, known := by.Bits[b].IsConst(); !known || cb {
+					canon = false
+				}
+			}
+			c.Check("a bool is written as the byte 0 or 1", canon, fmt.Sprintf("value byte is %v", by))
+		}
 		for _, mode := range []uint64{h.modeSafe, h.modeFast} {
 			for _, p := range withPadding(buf, int(n)) {
 				dec := h.newDecoder(p, mode)
@@ -482,7 +566,7 @@ func checkBitRoundTrips(r *core.Result, prog *core.Program, pk *packages.Package
 		if i := strings.IndexAny(name, " →∘"); i > 0 {
 			first := name[:i]
 			for _, cand := range []string{first, "(*Encoder)." + first} {
-				if fn := h0.m.Lookup(cand); fn != nil {
+				if fn := h0.m.Lookup(cand); fn != nil && anchor == "" {
 					anchor = prog.Pos(h0.m.Decls[fn].Pos())
 				}
 			}
@@ -494,6 +578,14 @@ func checkBitRoundTrips(r *core.Result, prog *core.Program, pk *packages.Package
 	add("EncodeZigZag64 ∘ DecodeZigZag64 = id, size = SizeOfZigZag, for all int64", 4000, func(h *bitHarness) func(*bitexec.Ctx) { return h.leafZigZag(64) })
 	add("EncodeFixed32 ∘ DecodeFixed32 = id (little endian), for all uint32", 100, func(h *bitHarness) func(*bitexec.Ctx) { return h.leafFixed(32) })
 	add("EncodeFixed64 ∘ DecodeFixed64 = id (little endian), for all uint64", 100, func(h *bitHarness) func(*bitexec.Ctx) { return h.leafFixed(64) })
+	for k := 1; k <= 10; k++ {
+		k := k
+		add(fmt.Sprintf("DecodeVarint reads every well-formed varint of %d bytes (non-minimal encodings included)", k), 100, func(h *bitHarness) func(*bitexec.Ctx) { return h.leafDecodeSpec(k) })
+	}
+	for _, k := range []int{1, 2, 3, 10} {
+		k := k
+		add(fmt.Sprintf("DecodeBool on any well-formed varint of %d bytes: zero is false, everything else true", k), 5000, func(h *bitHarness) func(*bitexec.Ctx) { return h.decodeBoolSpec(k) })
+	}
 	for _, l := range []int{0, 1, 5, 127, 128, 300} {
 		l := l
 		add(fmt.Sprintf("EncodeBytes → DecodeTag+DecodeBytes returns the bytes, cursor, size: every content of length %d", l), 10, func(h *bitHarness) func(*bitexec.Ctx) { return h.bytesField(l, 7) })
